@@ -38,6 +38,7 @@ import sys
 sys.path.insert(0, os.path.dirname(os.path.dirname(os.path.abspath(__file__))))   # harness/ (for `--judge`)
 import common
 import optlib
+import optcfglib
 from common import WorkerStats, canon
 
 META = {
@@ -56,7 +57,13 @@ META = {
                 'doit/doit_cmd.py::DoitMain.run', 'doit/doit_cmd.py::DoitMain.__init__',
                 'doit/doit_cmd.py::DoitMain.process_args',
                 'doit/task.py::Task.init_options', 'doit/loader.py::load_tasks',
-                'doit/cmd_base.py::NamespaceTaskLoader.load_tasks', 'doit/control.py::TaskControl._process_filter'],
+                'doit/cmd_base.py::NamespaceTaskLoader.load_tasks', 'doit/control.py::TaskControl._process_filter',
+                # wave 5: the configuration side (Model/OptCfg.lean)
+                'doit/plugin.py::PluginDict.add_plugins', 'doit/plugin.py::PluginDict.get_plugin',
+                'doit/plugin.py::PluginDict.to_dict', 'doit/plugin.py::PluginEntry.load',
+                'doit/doit_cmd.py::DoitMain.get_cmds', 'doit/doit_cmd.py::DoitConfig.loads',
+                'doit/doit_cmd.py::DoitConfig.load_config_toml', 'doit/cmd_base.py::get_loader',
+                'doit/cmd_base.py::DoitCmdBase.get_backends', 'doit/cmd_run.py::Run.get_reporters'],
     'technique': 'Lean 4 proofs over an executable model of getopt + CmdOption/CmdParse/DefaultUpdate (round trip of '
                  'rendered assignments by induction, rejection, purity of parse as a state transformer, precedence) '
                  '+ differential correspondence against the real classes on five code paths + specification monitor',
@@ -110,7 +117,24 @@ def _sig_var_word_steals_option_value(w):
     return any(a[0] in ('sDet', 'lDet') and is_var_word(a[-1]) for a in (case.get('asgs') or []))
 
 
+def _sig_unknown_reporter_loader_name(w):
+    """F-C16f: path plug, the name is neither a core class nor defined in any plugin layer, and it is a loader name or a
+    reporter name that was not written on the command line"""
+    case = w.get('case') or {}
+    if case.get('path') != 'plug' or w.get('failed') != 'reject':
+        return False
+    defined = any(case['name'] in [n for n, _ in (lay or [])] for lay in case['layers'].values())
+    if defined or case['name'] in case['core']:
+        return False
+    impl = w.get('impl') or {}
+    if 'KeyError' not in str(impl.get('exc')):
+        return False
+    return ((case['cat'] == 'loader' and impl.get('pick') == 'escapes') or
+            (case['cat'] == 'reporter' and case['where'] in ('config', 'dodo') and impl.get('pick') == 'traceback3'))
+
+
 SIGNATURES = {'var-word-steals-option-value': _sig_var_word_steals_option_value,
+              'unknown-reporter-loader-name': _sig_unknown_reporter_loader_name,
               }
 
 PATHS = ['parse', 'parse', 'command', 'main', 'premain', 'task', 'runtask', 'creator']
@@ -308,6 +332,8 @@ def gen_case(rng, base, path=None):
     return case
 
 
+BLANK_KEYS = set(optcfglib.BLANK)
+
 VIA_DOITMAIN = ('main', 'premain', 'runtask', 'realrun')
 
 
@@ -325,6 +351,14 @@ def add_layers(req, case):
 
 
 def model_request(case):
+    if case['path'] == 'plug':
+        return optcfglib.plug_request(case)
+    if case['path'] == 'conv':
+        return optcfglib.conv_request(case)
+    if case['path'] == 'plugcmd':
+        return optcfglib.cmd_request(case)
+    if case['path'] == 'tlayers':
+        return optcfglib.tlayers_request(case)
     req = {'model': 'opt', 'spec': case['spec'], 'env': case['env'], 'ini': case['ini'], 'glob': case['glob'],
            'dodo': case['dodo'], 'argv': case['argv']}
     add_layers(req, case)
@@ -343,6 +377,8 @@ def model_request(case):
 def aux_requests(case):
     """premain: what the property gives (a) the options written in front of the command name, (b) every option at the
     moment the loader receives them (DOIT_CONFIG not loaded yet)"""
+    if case.get('klayers'):
+        return {'winner': optcfglib.winner_request(case)}
     if case['path'] != 'premain' or case['asgs'] is None:
         return {}
     pre = {'model': 'opt', 'op': 'spec', 'spec': case['lspec'], 'env': [], 'ini': [], 'glob': [], 'dodo': [],
@@ -364,6 +400,14 @@ def spec_request(case):
 
 def run_impl(case, workdir):
     p = case['path']
+    if p == 'plug':
+        return optcfglib.impl_plug(case, workdir)
+    if p == 'conv':
+        return optcfglib.impl_conv(case)
+    if p == 'plugcmd':
+        return optcfglib.impl_cmd(case, workdir)
+    if p == 'tlayers':
+        return optcfglib.impl_tlayers(case, workdir)
     if p == 'parse':
         return optlib.impl_parse(case)
     if p == 'command':
@@ -445,6 +489,18 @@ def judge(case, impl, model, spec):
     """-> (violations [(label, note)], divergences [note])"""
     if case['path'] == 'realrun':
         return judge_realrun(case, impl, model, spec)
+    if case['path'] == 'plug':
+        return optcfglib.judge_plug(case, impl, model)
+    if case['path'] == 'conv':
+        return optcfglib.judge_conv(case, impl, model)
+    if case['path'] == 'plugcmd':
+        return optcfglib.judge_cmd(case, impl, model)
+    if case['path'] == 'tlayers':
+        return optcfglib.judge_tlayers(case, impl, model)
+    if case.get('klayers'):
+        v0, d0 = optcfglib.judge_layers(case, impl, model)
+        v1, d1 = judge(dict(case, klayers=None), impl, model, spec)
+        return v0 + v1, d0 + d1
     viol, div = [], []
     path = case['path']
     r1 = impl.get('res')
@@ -591,6 +647,8 @@ def refs_of(asgs, opts):
 
 
 def nontrivial(case, impl):
+    if case['path'] in ('plug', 'conv', 'plugcmd', 'tlayers'):
+        return True
     r = impl.get('res') or {}
     if 'err' in r:
         return True
@@ -762,6 +820,39 @@ def witness_of(case, impl, model, spec, label, note):
 # ------------------------------------------------------------------------------------------------ workers
 
 def account(st, case, impl, model, spec):
+    if case['path'] in ('plug', 'conv', 'plugcmd', 'tlayers'):
+        st.case({k: v for k, v in case.items() if k not in BLANK_KEYS or k == 'argv'}, True)
+        st.traces += 1
+        st.count('path:' + case['path'])
+        if case['path'] == 'tlayers':
+            st.count('tlayers:winner=%s,noise=%s' % (model.get('winner'), '+'.join(case['noise']) or '-'))
+        elif case['path'] == 'plugcmd':
+            st.count('plugcmd:first-word=%s,command=%s,class=%s,outcome=%s%s'
+                     % ((case['argv'] or ['-'])[0], model.get('cmd'), (model.get('cls') or ['-'])[0], model.get('pick'),
+                        ',entry-does-not-load' if case.get('broken') else ''))
+        elif case['path'] == 'plug':
+            lay = case['layers']
+            n_def = sum(1 for l in optcfglib.LAYER3 if lay[l] and case['name'] in [n for n, _ in lay[l]])
+            st.count('plug:%s,name-in=%s,defined-in-layers=%d' % (case['cat'], (case.get('cfg_at') or [case['where']])[0] if case['where'] == 'config' else case['where'], n_def))
+            st.count('plug:%s,outcome=%s' % (case['cat'], model.get('pick')))
+            st.count('plug:class=%s' % ((model.get('cls') or ['-'])[0]))
+            st.count('plug:layers-present=%s' % '+'.join(l for l in optcfglib.LAYER3 if lay[l] is not None))
+            if case.get('broken'):
+                b = case['broken'][2]
+                st.count('plug:entry-does-not-load=%s,%s,all_load=%s,outcome=%s'
+                         % (case['cat'], 'no-colon' if ':' not in b else 'two-colons' if b.count(':') > 1 else
+                            'no-module' if b.startswith('nomod') else 'no-attr', model.get('all_load'), model.get('pick')))
+            if case['name'] in case['core'] and n_def:
+                st.count('plug:plugin-shadows-core-name')
+        else:
+            st.count('conv:%s,cfg=%s,cmd=%s' % (case['opt']['type'], 'ok' if 'ok' in model['cfg'] else model['cfg']['err'],
+                                                 'ok' if 'ok' in model['cmd'] else model['cmd']['err']))
+            st.count('conv:cfg==cmd:%s' % (model['cfg'] == model['cmd']))
+        return
+    if case.get('klayers'):
+        w = (model.get('_aux') or {}).get('winner') or {}
+        st.count('layers:winner=%s' % w.get('winner'))
+        st.count('layers:present=%d,type=%s' % (len(case['klayers']['present']), case['klayers']['type']))
     st.case({'path': case['path'], 'cmd': case.get('cmd'), 'spec': [[o['name'], o['type'], o['short'], o['long'], o['inverse']] for o in case['spec'][case['n_base']:]],
              'argv': case['argv'], 'env': case['env'], 'ini': case['ini'], 'dodo': case['dodo'],
              'prev': case.get('prev_argv'), 'pre': case.get('pre'), 'files': case.get('files'),
@@ -959,6 +1050,17 @@ def run(ctx):
     real = realcmd_cases(random.Random(master.getrandbits(64)), 4 if ctx.tier == 'quick' else 60)
     ctx.count('real-command-tables:cases', len(real))
     cases += real
+    crng = random.Random(master.getrandbits(64))
+    core = optcfglib.core_tables()
+    n_cfg = (1 if ctx.tier == 'quick' else 12) * ctx.boost
+    cfgc = [optcfglib.gen_layers_case(crng, base) for _ in range(150 * n_cfg)] if base is not None else []
+    cfgc += [optcfglib.gen_plug_case(crng, core) for _ in range(150 * n_cfg)]
+    cfgc += [optcfglib.gen_conv_case(crng) for _ in range(120 * n_cfg)]
+    cfgc += [optcfglib.gen_tlayers_case(crng) for _ in range(80 * n_cfg)]
+    ccmds = optcfglib.core_commands()
+    cfgc += [optcfglib.gen_cmd_case(crng, ccmds) for _ in range(100 * n_cfg)]
+    ctx.count('config-side:cases', len(cfgc))
+    cases += cfgc
     small = small_scope_cases(3 if (ctx.tier == 'thorough' or ctx.boost > 1) else 2)
     ctx.extra['exhaustive_small_scope'] = {'tokens': len(SMALL_TOKENS), 'envs': len(SMALL_ENVS),
                                            'max_len': 3 if (ctx.tier == 'thorough' or ctx.boost > 1) else 2,
@@ -988,6 +1090,11 @@ def replay(ctx, data):
         return False
     c, impl, model, spec = eval_cases([case])[0]
     print('path    :', c['path'])
+    if c['path'] in ('plug', 'plugcmd', 'conv', 'tlayers'):
+        print('input   :', json.dumps({k: v for k, v in c.items() if k not in BLANK_KEYS or k == 'argv'}))
+        print('model   :', json.dumps({k: v for k, v in model.items() if k != '_aux'}))
+    if c.get('klayers'):
+        print('layers  : option probe, present: %s; model: %s' % (optcfglib.present_of(c), json.dumps((model.get('_aux') or {}).get('winner'))))
     print('options :', json.dumps(c['spec'][c['n_base']:]))
     print('env     :', c['env'], ' config section:', c['ini'], ' GLOBAL:', c['glob'], ' DOIT_CONFIG:', c['dodo'])
     if c.get('api'):
